@@ -1062,6 +1062,6 @@ def main(ctx):
     object_world(ctx, "several-objects", list(CK), lambda kind: Cosmo(**CK[kind]),
                  [("Dc", 0.1, 1.0), ("Da", 0.2, 0.8), ("sigmacritinv", 0.2, 0.8), ("V", 0.0, 0.5), ("vec", "Dl"),
                   ("copy", "Dm", 0.0, 1.5), ("params",), ("badvec",)],
-                 c_do, c_modules, depth=ctx.pick(3, 4), nodedup_depth=ctx.pick(3, 4),
+                 c_do, c_modules, result_edits=True, depth=ctx.pick(3, 4), nodedup_depth=ctx.pick(3, 4),
                  state=lambda c: {k: v for k, v in c.__dict__.items() if k != "Distmod"},
                  must_raise=lambda kind, op: op[0] == "badvec")
